@@ -93,7 +93,7 @@ var litModes = []string{"all", "all-mnemonic", "minimal", "bare-rbrace", "mnemon
 
 var litAlphabet = []rune{
 	'\\', '\\', '{', '{', '}', '}', '"', '"', ' ', ' ', '\t', '\n', '\r',
-	'n', 't', 'r', 'a', 'b', 'Z', '0', '1', '9',
+	'n', 't', 'r', 'a', 'b', 'Z', '0', '1', '9', 'x', 'x', 'u', 'f', '4',
 	'-', '_', '.', ',', ':', ';', '[', ']', '(', ')', '<', '>', '=', '+', '*', '/', '|', '&', '%', '$', '#', '@', '!', '?', '\'', '`', '~', '^',
 	'é', 'ß', '世', '😀', '\u00a0', '\u2003', '\u0085', '\u2028', 0, 0x7f, 0x1b, '\ufffd', '\u0301', '\v', '\f',
 }
@@ -397,6 +397,7 @@ func treeLabels(p *printer, std bool, pieces []Node) (bool, []string) {
 	l.Add(st.lastNested > 0, "nested-call-last")
 	l.Add(st.midNested > 0, "nested-call-middle")
 	l.Add(st.specInBraces > 0, "escaped-special-in-braces")
+	l.Add(st.escBlank > 0, "bare-arg-with-escaped-blank")
 	l.Add(st.opt > 0, "optional-escape")
 	l.Add(st.mnem > 0, "mnemonic")
 	l.Add(st.strayR > 0, "bare-rbrace-depth0")
